@@ -563,6 +563,28 @@ def check(hyps, goal, timeout_ms=None, sample=None, use_cvc5=False, want_model=T
     """Decide  hyps |= goal.  Returns (verdict, model, method) with verdict in
     {'unsat' (holds), 'sat' (counterexample), 'unknown'}."""
     timeout_ms = timeout_ms or QUICK_TIMEOUT_MS
+    if z3.is_and(goal) and goal.num_args() > 1:
+        # a conjunction is decided conjunct by conjunct (each may be discharged by the rewriter)
+        worst, model, how = 'unsat', None, 'rewriter'
+        snap = (STATS.rewriter, STATS.z3_unsat, STATS.cvc5_unsat, STATS.unknown)
+        for c in goal.children():
+            r, m, h = check(hyps, c, timeout_ms=timeout_ms, sample=sample, use_cvc5=use_cvc5, want_model=want_model, witness=witness)
+            STATS.obligations -= 1
+            if r == 'sat':
+                STATS.obligations += 1
+                return r, m, h
+            if r == 'unknown':
+                worst = 'unknown'
+            how = h if h != 'rewriter' else how
+        STATS.obligations += 1
+        STATS.rewriter, STATS.z3_unsat, STATS.cvc5_unsat, STATS.unknown = snap
+        if worst == 'unknown':
+            STATS.unknown += 1
+        elif how == 'rewriter':
+            STATS.rewriter += 1
+        else:
+            STATS.z3_unsat += 1
+        return worst, model, how
     STATS.obligations += 1
     t0 = time.time()
     # 0. If-terms whose condition is entailed by the hypotheses are resolved
